@@ -284,6 +284,47 @@ def item_zoo():
             for kind, decl in (('sn', 'struct Ty%s %s { %sx: u8, y: %s, p: (%s) }' % (g, w, fm, lt, ph)), ('st', 'struct Ty%s(%su8, %s, (%s)) %s;' % (g, fm, lt, ph, w)),
                                ('en', 'enum Ty%s %s { %sA(%su8, %s, (%s)), B { %sx: u8, p: (%s) } }' % (g, w, vd, fm, lt, ph, fm, ph))):
                 add('C17|generics|%s|%s|%s' % (gk, fk, kind), '#[derive(Educe)]\n#[educe(%s)]\n%s\n' % (tl, decl), {'generics': g, 'where': w, 'traits': fk})
+    # every Into diagnostic about targets of every syntactic kind (the message prints the target type): no field of the type, several candidates and no marker,
+    # the marker twice, the target twice, a variant without a candidate, a marker for a target that was not requested
+    itargets = ['&&str', "&'static &'static str", "&'a &'a mut [u8]", "(&'a u8, &'a u16)", "fn(&'a u8) -> &'a u8", "Option<&'a &'a u8>", "&'a dyn ::core::fmt::Debug", '*const &u8', "[&'a str; 2]",
+                "&'a (&'a u8, &'a [&'a str])", '<u8 as ZooTr>::Out', 'zoo_ty!()', 'u8', '()', '!', "::std::borrow::Cow<'a, &'a str>", "&'a &'a &'a &'a u8"]
+    for ti, t in enumerate(itargets):
+        tk = 't%02d' % ti
+        situations = {
+            'no-field': "struct Ty<'a> { a: u16, b: &'a u32 }",
+            'two-candidates': "struct Ty<'a> { a: %s, b: %s, c: &'a u32 }" % (t, t),
+            'two-candidates-tuple': "struct Ty<'a>(%s, %s, &'a u32);" % (t, t),
+            'marker-twice': "struct Ty<'a> { #[educe(Into(%s))] a: %s, #[educe(Into(%s))] b: %s, c: &'a u32 }" % (t, t, t, t),
+            'variant-without': "enum Ty<'a> { A(%s, &'a u32), B { x: u16, y: &'a u32 } }" % t,
+            'variant-two': "enum Ty<'a> { A(%s, &'a u32), B { x: %s, y: %s, z: &'a u32 } }" % (t, t, t),
+            'unrequested-marker': "struct Ty<'a> { #[educe(Into(%s))] a: %s, b: u64, c: &'a u32 }" % (t, t),
+            'union': "union Ty<'a> { a: %s, c: &'a u32 }" % t,
+        }
+        for sk, decl in situations.items():
+            tl = 'Into(u64)' if sk == 'unrequested-marker' else 'Into(%s)' % t
+            add('C17|into-diag|%s|%s' % (tk, sk), '#[derive(Educe)]\n#[educe(%s)]\n%s\n' % (tl, decl), {'target': t, 'situation': sk})
+        add('C17|into-diag|%s|target-twice' % tk, "#[derive(Educe)]\n#[educe(Into(%s), Into(%s))]\nstruct Ty<'a> { a: %s, c: &'a u32 }\n" % (t, t, t), {'target': t, 'situation': 'target-twice'})
+        add('C17|into-diag|%s|target-twice-lines' % tk, "#[derive(Educe)]\n#[educe(Into(%s))]\n#[educe(Into(%s))]\nstruct Ty<'a> { a: %s, c: &'a u32 }\n" % (t, t, t), {'target': t, 'situation': 'target-twice-lines'})
+    # explicit bound modes of every trait on parameter lists with inline bounds, defaults, attributes and const parameters (code paths that turn parameters into predicates)
+    gens2 = dict(gens)
+    gens2.update({'inline-bounds': ('<K: ::core::fmt::Display + Copy, V: Copy = u8>', ''), 'attr-param': ('<#[allow(unused)] T: Copy, #[cfg(all())] U: Copy>', ''),
+                  'const-default': ("<'a, T: 'a + Copy, const N: usize = 2>", ''), 'qualified-bound': ('<T: ::core::marker::Copy + ?Sized, U: Copy>', 'where T: Sized'),
+                  'paren-bound': ('<T: (Copy) + for<\'x> Fn(&\'x u8) -> u8>', '')})
+    bmodes = {'star': 'bound(*)', 'custom': 'bound(u8: Copy)', 'off': 'bound = false', 'str': 'bound = "u8: Copy,"', 'empty': 'bound()'}
+    btraits = {'Debug': 'Debug({B})', 'Clone': 'Clone({B})', 'CopyClone': 'Copy, Clone({B})', 'Copy': 'Copy({B}), Clone', 'PartialEq': 'PartialEq({B})', 'Eq': 'PartialEq, Eq({B})', 'PartialOrd': 'PartialEq, PartialOrd({B})',
+               'Ord': 'PartialEq, Eq, PartialOrd, Ord({B})', 'Hash': 'Hash({B})', 'Default': 'Default({B})', 'Into': 'Into(u8, {B})'}
+    for gk, (g, w) in gens2.items():
+        used = [x.strip().split(':')[0].split('=')[0].split(']')[-1].strip() for x in g.strip('<>').rstrip(',').split(',') if x.strip() and not x.strip().startswith(('const', "'")) and ':' in x or x.strip() in ('T', 'U')]
+        used = [u for u in used if u and u[0].isupper() and u.isalnum()]
+        ph = ', '.join('::core::marker::PhantomData<%s>' % u for u in dict.fromkeys(used)) or '()'
+        lt = "&'a u8" if "'a" in g else 'u8'
+        for bk, bm in bmodes.items():
+            for tk, tl in btraits.items():
+                vd = '#[educe(Default)] ' if 'Default' in tl else ''
+                for kind, decl in (('sn', 'struct Ty%s %s { x: u8, y: %s, p: (%s) }' % (g, w, lt, ph)), ('en', 'enum Ty%s %s { %sA(u8, %s, (%s)), B { x: u8, p: (%s) } }' % (g, w, vd, lt, ph, ph))):
+                    if tk == 'Into' and kind == 'en':
+                        continue
+                    add('C17|bounds|%s|%s|%s|%s' % (gk, bk, tk, kind), '#[derive(Educe)]\n#[educe(%s)]\n%s\n' % (tl.replace('{B}', bm), decl), {'generics': g, 'where': w, 'bound': bm, 'traits': tk})
     # raw identifiers as field, variant, type and parameter names under every trait set with field-level parameters
     for fk, (tl, fm) in fsets.items():
         vd = '#[educe(Default)] ' if 'Default' in tl else ''
